@@ -203,6 +203,33 @@ def unroll_literal_loops(tree: ast.AST) -> int:
     return n_un
 
 
+def flatten_exit_else(tree: ast.AST, elif_too: bool = True) -> int:
+    """Third part of the source normal form: `if C: ...; <exit>` / `else: rest` (the arm ends in return/raise/continue/break, `rest` is
+    not an elif chain) becomes `if C: ...; <exit>` followed by `rest` — the early-exit style the repository uses almost everywhere.
+    Same control flow; rules that read guard chains or the statements after an early exit see one shape."""
+    exits = (ast.Return, ast.Raise, ast.Continue, ast.Break)
+    n = 0
+    changed = True
+    while changed:
+        changed = False
+        for node in list(ast.walk(tree)):
+            holders = [(node, fld) for fld in ("body", "orelse", "finalbody") if isinstance(getattr(node, fld, None), list)]
+            for h, fld in holders:
+                seq = getattr(h, fld)
+                if not (seq and all(isinstance(x, ast.stmt) for x in seq)):
+                    continue
+                for i, st in enumerate(seq):
+                    if isinstance(st, ast.If) and st.orelse and isinstance(st.body[-1], exits) and (elif_too or not (
+                            (len(st.orelse) == 1 and isinstance(st.orelse[0], ast.If)) or (fld == "orelse" and isinstance(h, ast.If) and len(seq) == 1))):
+                        rest = st.orelse
+                        st.orelse = []
+                        setattr(h, fld, seq[: i + 1] + rest + seq[i + 1:])
+                        n += 1
+                        changed = True
+                        break
+    return n
+
+
 def normalise_branches(tree: ast.AST) -> int:
     """Second part of the source normal form (orientation of branches):
       * `if <negative test>: A else: B` (B not an elif) becomes `if <positive test>: B else: A`;
@@ -336,6 +363,7 @@ class Repo:
             except SyntaxError as e:
                 raise AnalysisError(f"cannot parse {rel}: {e}") from e
             if os.environ.get("FV_NO_DETEMP") != "1":
+                flatten_exit_else(tree)
                 unroll_literal_loops(tree)
                 inline_single_use_temporaries(tree)
                 normalise_branches(tree)
